@@ -60,13 +60,21 @@ func raceErrors() int { return runtime.RaceErrors() }
 func settle() { synctest.Wait() }
 
 //go:norace
-func eventWait(s *Sim, horizon *time.Timer) (event, bool) {
+func eventWait(s *Sim, horizon, probe *time.Timer) (event, int) {
 	runtime.RaceDisable()
 	defer runtime.RaceEnable()
+
+	var probeC <-chan time.Time
+	if probe != nil {
+		probeC = probe.C
+	}
+
 	select {
 	case e := <-s.events:
-		return e, true
+		return e, waitEvent
 	case <-horizon.C:
-		return event{}, false
+		return event{}, waitHorizon
+	case <-probeC:
+		return event{}, waitProbe
 	}
 }
